@@ -78,7 +78,7 @@ IFLAGS = ["ICRNL", "IXON", "INLCR"]
 OFLAGS = ["OPOST", "ONLCR"]
 
 OPS = ["query", "query_timeout", "read_none", "read_zero", "read_pos", "read_neg", "read_min", "read_all", "write",
-       "cell_size", "colors", "name_version", "kitty", "draw", "draw_anim", "more_raises"]
+       "cell_size", "colors", "name_version", "kitty", "draw", "draw_anim", "draw_nested", "more_raises"]
 
 
 @st.composite
@@ -199,6 +199,29 @@ def run_op(c, out_stream):
             r.draw(loops=1, echo_input=False, check_size=False)
         finally:
             sys.stdout = real
+    elif op == "draw_nested":
+        # a composite renderable draws another instance of its own class while it is being drawn (same terminal)
+        if "Nest" not in H:
+            Grid = type(H["new"]("grid", 1, 1, 1, 1))
+
+            class Nest(Grid):
+                inner = None
+
+                def _render_(self, render_data, render_args):
+                    if self.inner is not None:
+                        inner, self.inner = self.inner, None
+                        inner.draw(loops=1, echo_input=False, check_size=False)
+                    return super()._render_(render_data, render_args)
+
+            H["Nest"] = Nest
+        r = H["Nest"](3, 2, 1, 1)
+        r.inner = H["Nest"](2, 1, 1, 1)
+        real = sys.stdout
+        sys.stdout = out_stream
+        try:
+            r.draw(loops=1, echo_input=False, check_size=False)
+        finally:
+            sys.stdout = real
     elif op == "more_raises":
         calls = [0]
 
@@ -256,6 +279,27 @@ def _check(c, rec, fd, out_stream):
             raise Violation(f"terminal attributes not restored after {label}: fields {diff} differ "
                             f"(lflag {init[3]:#x}->{now[3]:#x}, cc VMIN {init[6][termios.VMIN]!r}->{now[6][termios.VMIN]!r}, "
                             f"VTIME {init[6][termios.VTIME]!r}->{now[6][termios.VTIME]!r}) [{what}]", sig)
+
+    def sequel(label, sig):
+        """The application switches the terminal to another mode itself; the next, fault-free library operation must put
+        THAT mode back - not something remembered from the earlier (failed) operation."""
+        F.enabled = False
+        alt = termios.tcgetattr(fd)
+        alt[3] ^= termios.ICANON | termios.ECHO | termios.ISIG
+        alt[6][termios.VMIN] = 2 if init[6][termios.VMIN] != 2 else 1
+        alt[6][termios.VTIME] = 3 if init[6][termios.VTIME] != 3 else 0
+        termios.tcsetattr(fd, termios.TCSANOW, alt)
+        alt = _norm(termios.tcgetattr(fd))
+        try:
+            U.read_tty_all()
+        except Exception as e:
+            raise Violation(f"read_tty_all() after {label} raised {type(e).__name__}: {e} [{what}]", dict(sig, kind="sequel_exception"))
+        now = _norm(termios.tcgetattr(fd))
+        if now != alt:
+            diff = [i for i in range(7) if now[i] != alt[i]]
+            raise Violation(f"after {label}, the application changed the terminal mode and called read_tty_all(): the attributes "
+                            f"were not put back as found: fields {diff} differ (lflag {alt[3]:#x}->{now[3]:#x}, VMIN "
+                            f"{alt[6][termios.VMIN]!r}->{now[6][termios.VMIN]!r}) [{what}]", dict(sig, kind="sequel_not_restored"))
 
     # -- dry run -------------------------------------------------------------------
     prepare(c, fd, init)
@@ -316,6 +360,8 @@ def _check(c, rec, fd, out_stream):
                 injected += 1
                 verify(f"{ename} injected {when} call #{i} ({name}) -> {res}",
                        {"kind": "not_restored", "op": c["op"], "site": name, "when": when, "exc": ename})
+                sequel(f"{ename} injected {when} call #{i} ({name}) -> {res}",
+                       {"op": c["op"], "site": name, "when": when, "exc": ename})
                 between = first_change is not None and i >= first_change
                 if between and not default_init:
                     rec.nontriv([c["op"], sorted(c["lflag"]), c["vmin"] % 3, c["vtime"] % 3, name, when, ename, i - first_change])
